@@ -438,3 +438,12 @@ def run(ck):
                 if (arm['pat'].get('def') or '').endswith('GadgetKind::Color'):
                     got = [H.lit_value(v) for v in H.value_exprs(arm['body'])]
         ck.ob('R19.4', 'color-tag-name', got == ['color'], L.loc(at['body']), 'GadgetKind::Color => %s' % got)
+
+    # the string that reaches the parser is the string as written (C03 R3.6): padding or case is not repaired on the way
+    import core as _core
+    import rules.c03 as c03
+    ck.rule('R19.5', 'the colour string reaches the parser as written (shared with C03)')
+    s3 = _core.Shared(ck, 'R19.5', lambda r, k: r == 'R3.6' and k in ('static-string-returned-as-is', 'static-strings-are-bare'), 'C03:',
+                      ' [`" red"` or `"#fff "` must be refused, not trimmed into a colour]')
+    c03.run(s3)
+    ck.floor('R19.5', s3.count, 2, 'shared C03 R3.6 obligations on extract_static_string')
